@@ -4,12 +4,15 @@ import (
 	"encoding/json"
 	"fmt"
 	"os"
+	"os/exec"
+	"path/filepath"
 	"reflect"
 	"sort"
 	"strings"
 	"testing"
 	"time"
 
+	"github.com/atlassian/escalator/pkg/cloudprovider"
 	"github.com/atlassian/escalator/pkg/controller"
 
 	"verif/h"
@@ -29,7 +32,7 @@ func c16Baseline() cfg {
 		"soft_delete_grace_period": "1m", "hard_delete_grace_period": "10m",
 		"scale_up_cool_down_period": "2m",
 		"taint_effect": "", "max_node_age": "",
-		"aws": cfg{"lifecycle": ""},
+		"aws": cfg{"lifecycle": "", "launch_template_id": "", "launch_template_version": ""},
 	}
 }
 
@@ -70,7 +73,8 @@ func c16Groups() []c16Group {
 		{"grace", []string{"soft_delete_grace_period", "hard_delete_grace_period"}, cross(durs, 2)},
 		{"cooldown", []string{"scale_up_cool_down_period"}, one("", "abc", "0s", "-1m", "2m")},
 		{"effect", []string{"taint_effect"}, one("", "NoSchedule", "NoExecute", "PreferNoSchedule", "Bogus", "noschedule")},
-		{"lifecycle", []string{"aws.lifecycle"}, one("", "on-demand", "spot", "Spot")},
+		{"lifecycle", []string{"aws.lifecycle"}, one("", "on-demand", "spot", "Spot", "reserved")},
+		{"launchtemplate", []string{"aws.launch_template_id", "aws.launch_template_version"}, [][]any{{"", ""}, {"lt-1a2b3c4d", "1"}, {"lt-1a2b3c4d", ""}}},
 		{"maxage", []string{"max_node_age"}, one("", "0", "12h", "abc")},
 		{"names", []string{"name", "label_key", "label_value", "cloud_provider_group_name"}, cross([]any{"", "a"}, 4)},
 	}
@@ -313,7 +317,182 @@ func c16Grid(t *testing.T, tier string, shard, shards int, c *h.Collector) {
 	rec(0, c16Baseline(), nil)
 	if shard == 0 {
 		c16DocumentedKeys(c)
+		c16StartupGate(c)
 	}
+}
+
+// c16StartupGate drives the real start-up gate in cmd/main.go (through the build-tagged probe
+// cmd/verif_gate_test.go) over multi-group configuration files: escalator must refuse to start iff
+// at least one group breaks an invariant, wherever that group sits in the file, in YAML and JSON.
+func c16StartupGate(c *h.Collector) {
+	dir, err := os.MkdirTemp("", "verif-gate-")
+	if err != nil {
+		c.R.Notes = append(c.R.Notes, "start-up gate skipped: "+err.Error())
+		return
+	}
+	defer os.RemoveAll(dir)
+	valid := func(i int) cfg {
+		b := c16Baseline()
+		b.set("name", fmt.Sprintf("g%d", i))
+		return b
+	}
+	invalids := map[string]func(cfg){
+		"name-empty":    func(b cfg) { b.set("name", "") },
+		"lower-eq-upper": func(b cfg) { b.set("taint_lower_capacity_threshold_percent", 70) },
+		"upper-ge-up":   func(b cfg) { b.set("taint_upper_capacity_threshold_percent", 100) },
+		"slow-gt-fast":  func(b cfg) { b.set("slow_node_removal_rate", 5) },
+		"slow-negative": func(b cfg) { b.set("slow_node_removal_rate", -1); b.set("fast_node_removal_rate", 0) },
+		"soft-ge-hard":  func(b cfg) { b.set("soft_delete_grace_period", "10m") },
+		"no-cooldown":   func(b cfg) { b.set("scale_up_cool_down_period", "") },
+		"min-ge-max":    func(b cfg) { b.set("min_nodes", 5) },
+		"bad-effect":    func(b cfg) { b.set("taint_effect", "Bogus") },
+		"bad-lifecycle": func(b cfg) { b.set("aws.lifecycle", "Spot") },
+		"bad-max-age":   func(b cfg) { b.set("max_node_age", "abc") },
+	}
+	var inames []string
+	for k := range invalids {
+		inames = append(inames, k)
+	}
+	sort.Strings(inames)
+	expect := map[string]bool{}
+	n := 0
+	write := func(groups []cfg, anyInvalid bool, tag string) {
+		for _, enc := range []string{"json", "yaml"} {
+			n++
+			name := fmt.Sprintf("case-%03d-%s-%s.cfg", n, tag, enc)
+			var body string
+			if enc == "json" {
+				var gs []any
+				for _, g := range groups {
+					gs = append(gs, g)
+				}
+				b, _ := json.Marshal(map[string]any{"node_groups": gs})
+				body = string(b)
+			} else {
+				body = "node_groups:\n"
+				for _, g := range groups {
+					one := renderYAMLBlock(g)
+					body += strings.TrimPrefix(one, "node_groups:\n")
+				}
+			}
+			os.WriteFile(filepath.Join(dir, name), []byte(body), 0o644)
+			expect[name] = anyInvalid
+		}
+	}
+	for k := 1; k <= 3; k++ {
+		var gs []cfg
+		for i := 0; i < k; i++ {
+			gs = append(gs, valid(i))
+		}
+		write(gs, false, fmt.Sprintf("valid%d", k))
+	}
+	for _, in := range inames {
+		for size := 1; size <= 3; size++ {
+			for pos := 0; pos < size; pos++ {
+				var gs []cfg
+				for i := 0; i < size; i++ {
+					g := valid(i)
+					if i == pos {
+						invalids[in](g)
+					}
+					gs = append(gs, g)
+				}
+				write(gs, true, fmt.Sprintf("%s-at%d-of%d", in, pos, size))
+			}
+		}
+	}
+	// the option mapping of setupCloudProvider, compared with the harness's restatement of it
+	mp := valid(0)
+	mp.set("aws.lifecycle", "spot")
+	mp.set("aws.launch_template_id", "lt-123")
+	mp.set("aws.launch_template_version", "7")
+	mp["aws"].(cfg)["fleet_instance_ready_timeout"] = "90s"
+	mp["aws"].(cfg)["instance_type_overrides"] = []string{"t2.large", "t3.large"}
+	mp["aws"].(cfg)["resource_tagging"] = true
+	b, _ := json.Marshal(map[string]any{"node_groups": []any{mp, valid(1)}})
+	os.WriteFile(filepath.Join(dir, "map.cfg"), b, 0o644)
+	expect["map.cfg"] = false
+
+	args := []string{"test", "-tags", "verif", "-vet=off", "-count=1", "-v", "-run", "^TestVerifStartupGate$"}
+	if ov := os.Getenv("VERIF_OVERLAY"); ov != "" {
+		args = append(args, "-overlay", ov)
+	}
+	args = append(args, "./cmd")
+	cmd := exec.Command(env("VERIF_GO", "go1.26.8"), args...)
+	cmd.Dir = "/repo"
+	cmd.Env = append(os.Environ(), "VERIF_GATE_DIR="+dir)
+	out, err := cmd.CombinedOutput()
+	seen := 0
+	for _, line := range strings.Split(string(out), "\n") {
+		if strings.HasPrefix(line, "VERIF-GATE ") {
+			var r struct {
+				File    string `json:"file"`
+				Refused bool   `json:"refused"`
+				Groups  int    `json:"groups"`
+				Msg     string `json:"msg"`
+			}
+			if json.Unmarshal([]byte(strings.TrimPrefix(line, "VERIF-GATE ")), &r) != nil {
+				continue
+			}
+			seen++
+			c.R.Evaluations++
+			c.Nontrivial("gate/" + r.File)
+			want, ok := expect[r.File]
+			if !ok {
+				continue
+			}
+			if r.Refused != want {
+				sig := "C16/startup-gate/invalid-group-admitted"
+				if !want {
+					sig = "C16/startup-gate/valid-file-refused"
+				}
+				c.Report(h.Found{Violation: h.Violation{Prop: "C16", Sig: sig, Msg: fmt.Sprintf("configuration file %s: start-up refused=%v (%s), expected refused=%v", r.File, r.Refused, r.Msg, want)}, Scenario: "c16.gate", Case: r.File})
+			} else if want {
+				c.R.Cov["c16.gate-refused-as-expected"]++
+			}
+		}
+		if strings.HasPrefix(line, "VERIF-MAP ") {
+			var got []cloudprovider.NodeGroupConfig
+			if json.Unmarshal([]byte(strings.TrimPrefix(line, "VERIF-MAP ")), &got) != nil {
+				continue
+			}
+			opts, derr := decode(string(b))
+			if derr != nil {
+				continue
+			}
+			var specs []h.GroupSpec
+			for _, o := range opts {
+				specs = append(specs, h.GroupSpec{Opts: o})
+			}
+			want := h.ProviderConfigs(specs, 0)
+			for i := range want {
+				want[i].AWSConfig.FleetInstanceReadyTimeout = opts[i].AWS.FleetInstanceReadyTimeoutDuration()
+			}
+			c.R.Evaluations++
+			if !reflect.DeepEqual(got, want) {
+				c.Report(h.Found{Violation: h.Violation{Prop: "C16", Sig: "C16/option-mapping-differs", Msg: fmt.Sprintf("setupCloudProvider maps the options to %+v, the harness's restatement to %+v", got, want)}, Scenario: "c16.gate", Case: "map.cfg"})
+			} else {
+				c.R.Cov["c16.option-mapping-agrees"]++
+			}
+		}
+	}
+	if seen == 0 {
+		c.R.HarnessError = fmt.Sprintf("start-up gate probe produced no result (err %v): %s", err, tailStr(string(out), 1500))
+	}
+}
+
+func env(k, def string) string {
+	if v := os.Getenv(k); v != "" {
+		return v
+	}
+	return def
+}
+
+func tailStr(s string, n int) string {
+	if len(s) > n {
+		return s[len(s)-n:]
+	}
+	return s
 }
 
 // c16DocumentedKeys reads the example in docs/configuration/nodegroup.md and checks that every
@@ -405,8 +584,8 @@ func init() {
 	register(&Check{
 		ID:    "C16",
 		Level: "exploration",
-		Rule: "every configuration in which at most 2 (quick) / 3 (thorough) of nine option groups deviate from a valid baseline, each group swept exhaustively (thresholds {-1,0,1,40,70,100,150}^3, bounds {-1,0,1,5}^2, rates {-3..5}^2, grace periods 7^2 strings, cool-down 5, effect 6, lifecycle 4, max_node_age 4, four name strings 2^4); each rendered as JSON, block YAML and flow YAML, decoded by the real decoder and validated by the real validator; " +
-			"plus every key of the documented example (docs/configuration/nodegroup.md, read at check time); non-trivial = every configuration; distinct by its rendering",
+		Rule: "every configuration in which at most 2 (quick) / 3 (thorough) of ten option groups deviate from a valid baseline, each group swept exhaustively (thresholds {-1,0,1,40,70,100,150}^3, bounds {-1,0,1,5}^2, rates {-3..5}^2, grace periods 7^2 strings, cool-down 5, effect 6, lifecycle 5, launch template 3, max_node_age 4, four name strings 2^4); each rendered as JSON, block YAML and flow YAML, decoded by the real decoder and validated by the real validator; " +
+			"plus every key of the documented example (docs/configuration/nodegroup.md, read at check time); plus the real start-up gate of cmd/main.go over one- to three-group files with an invalid group (eleven kinds) at every position, in YAML and JSON, and the option-to-provider mapping of setupCloudProvider compared with the harness's restatement; non-trivial = every configuration; distinct by its rendering",
 		Grid:        c16Grid,
 		Assumptions: append([]string{"valid max_node_age = empty or parseable as a Go duration (the validator's own message)"}, commonAssumptions...),
 	})
